@@ -19,6 +19,22 @@ import z3
 INF = float("inf")
 
 
+def guarded_check(solver, timeout_ms, *assumptions):
+    """solver.check() with a watchdog: z3's own timeout is occasionally not
+    honoured inside nlsat; a timer thread then interrupts the context (the
+    answer is 'unknown', i.e. inconclusive, never a verdict)."""
+    import threading
+    t = threading.Timer(timeout_ms / 1000.0 * 1.5 + 5.0, z3.main_ctx().interrupt)
+    t.daemon = True
+    t.start()
+    try:
+        return str(solver.check(*assumptions))
+    except z3.Z3Exception:
+        return "unknown"
+    finally:
+        t.cancel()
+
+
 class CutPath(BaseException):
     """Abandon the current path (infeasible assumption / bound reached)."""
 
@@ -429,7 +445,7 @@ class Explorer:
         t = time.time()
         self.sol.push()
         self.sol.add(*[self._ab(e) for e in extra])
-        r = str(self.sol.check())
+        r = guarded_check(self.sol, self.timeout_ms)
         self.sol.pop()
         self.checks += 1
         self.solver_s += time.time() - t
@@ -497,7 +513,7 @@ class Explorer:
             return v.as_long()
         for _ in range(self.int_range):
             tt = time.time()
-            r = str(self.sol.check())
+            r = guarded_check(self.sol, self.timeout_ms)
             self.solver_s += time.time() - tt
             if r != "sat":
                 raise CutPath("infeasible" if r == "unsat" else "unknown")
